@@ -276,7 +276,13 @@ func (c *Ctx) finish(evDir string, writeEvidence bool, seed int, start time.Time
 			fns = append(fns, k)
 		}
 		sort.Strings(fns)
+		// the rules actually evaluated in this run, with how many obligations each produced (measured)
+		ruleCounts := map[string]int{}
+		for _, o := range c.Obls {
+			ruleCounts[o.Rule]++
+		}
 		cov := map[string]interface{}{
+			"rules_evaluated":     ruleCounts,
 			"obligations":         len(c.Obls),
 			"discharged":          okN,
 			"known_findings":      known,
